@@ -821,6 +821,21 @@ def reqOfValue (k : Kind) (v : RVal) : Option Req :=
   | .bytes, .bytes d => some (.bytes d)
   | _, _ => none
 
+/-- SPEC: what reading back the encoding of a request must give — the value in canonical form
+    (digit strings tidied and prefix-free; a float rounded to the format). -/
+def valueOf (q : Req) (n : Nat) : RVal :=
+  match q with
+  | .int _ v => .int v
+  | .str k s => .str (k.canon s)
+  | .flt .floatbe p | .flt .floatle p => .flt (unpackFloat (fltFmt n) (packFloat (fltFmt n) p))
+  | .flt .bfloatbe p | .flt .bfloatle p => .flt (unpackFloat Ieee.f32 ((packFloat Ieee.f32 p).take 16 ++ List.replicate 16 false))
+  | .bool (.py b) => .bool b
+  | .bool (.int i) => .bool (decide (i = 1))
+  | .bool (.str s) => .bool (decide (s = "True".toList ∨ s = "1".toList))
+  | .bytes d => .bytes d
+  | .bits b => .bits b
+  | .pad => .none
+
 /-! ## Driver -/
 
 def hexDigitsOfNat (width n : Nat) : String :=
